@@ -255,7 +255,7 @@ class EX:
             return
         # fixed-arity unpacking of a split / call result
         if isinstance(st, ast.Assign) and isinstance(st.targets[0], ast.Tuple) and isinstance(st.value, ast.Call) and df.last_attr(st.value) == "split":
-            guard = ru_in_guard(fi.node, st)
+            guard = ru_in_guard(fi.node, st) or _path_guarantees_arity(fi.node, st)
             if not guard:
                 self._add(out, Escape("ValueError", fi.qualname, "%s:%d" % (fi.module.relpath, st.lineno), norm(st)[:120]), handlers)
         for fld, val in ast.iter_fields(st):
@@ -298,6 +298,25 @@ def _walk_expr(e):
             if isinstance(ch, (ast.Lambda, ast.FunctionDef, ast.ClassDef)):
                 continue
             stack.append(ch)
+
+
+_ARITY = {}
+
+
+def _path_guarantees_arity(func_node, stmt):
+    """every path reaching `a, b = s.split(sep, 1)` has passed a test that sep is in s -- whatever form the test takes
+    (an enclosing if, a guard clause that continues / returns, a helper) -- decided on the path conditions (sa/sym.py)"""
+    from . import sym
+    k = id(func_node)
+    if k not in _ARITY:
+        try:
+            w = sym.SymWalker(func_node, sym.Canon(None, None, None), None)
+            w.run()
+            _ARITY[k] = {id(st) for st, r in w.unpack_risks}
+        except Exception:
+            _ARITY[k] = None
+    risks = _ARITY[k]
+    return risks is not None and id(stmt) not in risks
 
 
 def ru_in_guard(func_node, stmt):
